@@ -152,6 +152,10 @@ func (il *IPRequestLimiter) dump() {
 func ipFromRequest(req *http.Request) (string, error) {
 	forwardIP := req.Header.Get("X-Forwarded-For")
 	if forwardIP != "" {
+		// Count all spellings of one address (e.g. compressed and full IPv6 form) as the same client
+		if ip := net.ParseIP(strings.TrimSpace(forwardIP)); ip != nil {
+			return ip.String(), nil
+		}
 		return forwardIP, nil
 	}
 	ip, _, err := net.SplitHostPort(req.RemoteAddr)
